@@ -82,6 +82,10 @@ CHECKS = {
    text="Exhaustive enumeration of all sessions of up to 4 (thorough 5) open/change events over a root and an included document whose disk and buffer texts differ observably, compared after every step with a reference session model (disk overlaid by open buffers, root = last touched).",
    note="didClose is not part of the modelled sessions",
    technique="exhaustive small-scope enumeration of sessions against a reference model"),
+ "C04": dict(cat="exploration", design="§5 C04",
+   text="Positive: 10000 grammar-generated sentences per quick run (three trivia policies) must parse with zero errors and mirror their derivation tree, including what each of the 103 typed accessors of ast.rs returns; the 39 vendored LLVM files and the seed files must parse cleanly. Negative: 15000 one/two-token edits classified by an independent Earley recogniser over token classes against two grammars (G_min: documented grammar; G_max: plus everything plausibly legal): derivable => zero errors, not derivable even from G_max => at least one error.",
+   note="the Earley grammars are my transcription of syntax.md and the rule comments (self-checked: every generated sentence is in G_max); 'in between' inputs are not asserted",
+   technique="grammar-based generation + mutation with an independent Earley recogniser as oracle"),
 }
 
 REASON_WIP = "check not built yet in this session (work in progress; see DESIGN.md for the planned generator and oracle)"
